@@ -103,6 +103,12 @@ type (
 		E    Expr
 		Wide bool
 	}
+	// Block is a do-block used as an expression: `do; body; res; end` (a fresh scope; its value is Res).
+	// Abrupt completions of the body (break, continue, return, throw) propagate out of the expression.
+	Block struct {
+		Body []Stmt
+		Res  Expr
+	}
 	// ListLit is `[e, …]`.
 	ListLit struct{ Elems []Expr }
 	// Index is `l[i]` with a constant index.
@@ -125,6 +131,7 @@ func (*Fn) isExpr()      {}
 func (*Logic) isExpr()   {}
 func (*IfE) isExpr()     {}
 func (*Mark) isExpr()    {}
+func (*Block) isExpr()   {}
 func (*ListLit) isExpr() {}
 func (*Index) isExpr()   {}
 
@@ -148,6 +155,7 @@ type (
 	PrintE struct {
 		E    Expr
 		Show bool
+		Note string // not printed: the reference interpreter records it as the origin of the trace line
 	}
 	// PrintThrown is println("THROWN " + v.inspect) for a variable bound by a typed catch-all.
 	PrintThrown struct{ Var string }
@@ -381,6 +389,9 @@ func escExpr(e Expr, ct func(string) []string, set map[string]bool) {
 		escExpr(e.E, ct, set)
 	case *Mark:
 		escExpr(e.E, ct, set)
+	case *Block:
+		escStmts(e.Body, ct, set)
+		escExpr(e.Res, ct, set)
 	case *ListLit:
 		for _, a := range e.Elems {
 			escExpr(a, ct, set)
